@@ -132,9 +132,14 @@ def gen_crits(rng, k, n):
     vals = sorted(set(x for x in k if x is not None))
     if rng.random() < 0.3 and vals:
         for _ in range(rng.choice([1, 1, 2])):
-            kind = rng.choice(['peak', 'sum', 'seeds', 'npixacc', 'peakacc'])
+            kind = rng.choice(['peak', 'sum', 'seeds', 'npixacc', 'peakacc', 'udelta'])
             if kind in ('peak', 'peakacc'):
                 crits.append([kind, rng.choice(vals)])
+            elif kind == 'udelta':
+                # a criterion in the user's list that depends on the VALUE at which the regions meet
+                # (pruning.min_delta handed over as a user criterion)
+                a_, b_ = rng.choice(vals), rng.choice(vals)
+                crits.append([kind, max(1, abs(a_ - b_) + rng.choice([0, 0, 1, -1]))])
             elif kind == 'sum':
                 crits.append([kind, rng.choice(vals) * rng.randint(1, 3)])
             elif kind == 'seeds':
